@@ -8,8 +8,9 @@ sys.path.insert(0, "/verif")
 sys.path.insert(0, "/repo")
 from pyvc import oblig          # noqa
 sys.path.insert(0, "/verif/tools")
-from gen_seeded_meta import ROUND2, ROUND3      # noqa
+from gen_seeded_meta import ROUND2, ROUND3, ROUND4      # noqa
 ROUND2 = dict(ROUND2, **ROUND3)
+ROUND2.update(ROUND4)
 
 kinds = {}
 for i in range(1, 21):
